@@ -79,12 +79,16 @@ func aliasingConfig(seed uint64, i int, root string) (*gen.Case, error) {
 		ov.Umask = []int64{0o077, 0o027, 0o022, 0o007, 0o037}[k]
 		s.SetOverride(f, ov)
 	}
-	s.Depends = []string{"zeta", "alpha", "mid >= 1.0", "alpha2"}
-	s.Provides = []string{"prov-b", "prov-a"}
-	s.Conflicts = []string{"c2", "c1"}
+	s.Contents = append(s.Contents,
+		&gen.Content{Type: "config|noreplace", Src: filepath.Join(root, host.Rel), Dst: "/etc/" + s.Name + "/noreplace.conf"},
+		&gen.Content{Type: "config|missingok", Src: filepath.Join(root, host.Rel), Dst: "/etc/" + s.Name + "/missingok.conf"},
+	)
+	s.Depends = []string{"zeta", "alpha", "mid >= 1.0", "alpha2", "zeta"} // unsorted, with a duplicate
+	s.Provides = []string{"prov-b", "prov-a", "prov-b"}
+	s.Conflicts = []string{"c2", "c1", "c2"}
 	s.Recommends = []string{"r9", "r1"}
 	s.Suggests = []string{"s9", "s1"}
-	s.Replaces = []string{"old-z", "old-a"}
+	s.Replaces = []string{"old-z", "old-a", "old-z"}
 	for k := 0; k < 4; k++ {
 		s.Deb.Fields.Set(fmt.Sprintf("X-Alias-%d", k), "v")
 		s.IPK.Fields.Set(fmt.Sprintf("X-Alias-%d", k), "v")
